@@ -298,7 +298,7 @@ _open_tag    = r'(?<!\\)<' + _tag + _attrs + r'\s*/?>'  # noqa: E221
 _closing_tag = r'(?<!\\)</' + _tag + r'\s*>'
 _comment     = r'(?<!\\)<!--(?!>|->)(?:(?!--).)+?(?<!-)-->'  # noqa: E221
 _instruction = r'(?<!\\)<\?.+?\?>'
-_declaration = r'(?<!\\)<![A-Z].+?>'
+_declaration = r'(?<!\\)<![A-Za-z][^>]*>'
 _cdata       = r'(?<!\\)<!\[CDATA.+?\]\]>'  # noqa: E221
 
 
